@@ -341,8 +341,37 @@ def key_expected_ok(kc, r):
     return got == exp
 
 
+TWICE_QUICK = ['fistr/thermal', 'fistr/cload', 'fistr/heat', 'fistr/tet2_3', 'fistr/mixture_solid',
+               'fistr/mixture_shell', 'fistr/pyramid', 'fistr/spring', 'fistr/tet_3', 'fistr/quad',
+               'ucd/mixture', 'ucd/tet2', 'ucd/prism', 'ucd/nan', 'ucd/line', 'ucd/thermal']
+TWICE_TS = ['fistr/static_time_series']
+
+
+def gen_twice(ctx):
+    """real source directories of the tree under test, read twice"""
+    base = lib.REPO / 'tests' / 'data'
+    out = []
+    names = list(TWICE_QUICK)
+    if ctx.tier == 'thorough':
+        for ft in ('fistr', 'ucd'):
+            if (base / ft).is_dir():
+                names += sorted(f'{ft}/{p.name}' for p in (base / ft).iterdir() if p.is_dir())
+    seen = set()
+    for nm in names + TWICE_TS:
+        d = base / nm
+        if nm in seen or not d.is_dir():
+            continue
+        seen.add(nm)
+        size = sum(f.stat().st_size for f in d.iterdir() if f.is_file() and not f.name.startswith('femio_'))
+        if size > (20_000_000 if nm in TWICE_TS else 400_000):
+            continue
+        out.append({'id': len(out), 'name': nm, 'ftype': nm.split('/')[0], 'path': str(d),
+                    'time_series': nm in TWICE_TS})
+    return out
+
+
 # ---------------------------------------------------------------- child
-def run_impl(ctx, cfg_files, hs, rts, pool, keycases=()):
+def run_impl(ctx, cfg_files, hs, rts, pool, keycases=(), twice=()):
     work = ctx.scratch / 'work'
     if work.exists():
         import shutil
@@ -350,7 +379,7 @@ def run_impl(ctx, cfg_files, hs, rts, pool, keycases=()):
     work.mkdir(parents=True, exist_ok=True)
     spec = {'work': str(work), 'out': str(ctx.scratch / 'impl_out.json'), 'files': cfg_files,
             'sources': [{'ftype': ft, 'path': str(SRC_DIR / nm)} for ft, nm in SOURCES],
-            'pool': pool, 'histories': hs, 'roundtrips': rts, 'keycases': list(keycases)}
+            'pool': pool, 'histories': hs, 'roundtrips': rts, 'keycases': list(keycases), 'twice': list(twice)}
     r = subprocess.run([lib.PY, str(lib.VERIF / 'harness' / 'c05_impl.py')],
                        input=json.dumps(spec), text=True, capture_output=True,
                        env=lib.impl_env(), timeout=1500)
@@ -629,7 +658,8 @@ def main(ctx):
                                                 'hex', 'hex2', 'hexprism']
     kcs = gen_keycases(ctx, types)
     ctx.log(f'{len(hs)} histories, {len(rts)} round trips, {len(kcs)} key-scheme cases')
-    out = run_impl(ctx, files, hs, rts, pool, kcs)
+    tws = gen_twice(ctx)
+    out = run_impl(ctx, files, hs, rts, pool, kcs, tws)
     snaps = out['snaps']
     ctx.notes['member_classes_observed'] = out['classes']
     if cfg and {m: out['classes'][m] for m in cfg['classes']} != cfg['classes']:
@@ -665,8 +695,9 @@ def main(ctx):
     defs = [f'Definition o{j} : snap := {snap_coq(s)}.' for j, s in enumerate(snaps)]
     disagree, violating = [], []
     model_ok = tie_ok and cfg_ok is not None
-    CH = 250
-    for c0 in range(0, len(lines), CH):
+    CH = 150
+
+    def eval_chunk(c0):
         chunk = lines[c0:c0 + CH]
         txt = list(HEADER) if model_ok else [x for x in HEADER if 'SaveCfg' not in x]
         txt += defs
@@ -679,13 +710,18 @@ def main(ctx):
         if model_ok:
             txt += ['Goal True. idtac "@@ disagree". Abort.', f'Eval vm_compute in {sel} corr.']
         txt += ['Goal True. idtac "@@ violating". Abort.', f'Eval vm_compute in {sel} orac.']
-        rc, o, e = ctx.coq_eval(f'Corr{c0 // CH}', '\n'.join(txt) + '\n', timeout=900)
+        return ctx.coq_eval(f'Corr{c0 // CH}', '\n'.join(txt) + '\n', timeout=900)
+
+    from concurrent.futures import ThreadPoolExecutor
+    with ThreadPoolExecutor(max_workers=6) as ex:
+        results = list(ex.map(eval_chunk, range(0, len(lines), CH)))
+    pair = re.compile(r'\((\d+),\s*Some\s+(\d+)\)')
+    for rc, o, e in results:
         if rc != 0:
             ctx.log('correspondence file failed to compile', e[-800:])
             harness_errors.append((-1, 'Corr file: ' + e[-300:]))
             continue
         parts = lib.parse_marked(o)
-        pair = re.compile(r'\((\d+),\s*Some\s+(\d+)\)')
         disagree += [(int(a), int(b)) for a, b in pair.findall(parts.get('disagree', '').split(' : ')[0])]
         violating += [(int(a), int(b)) for a, b in pair.findall(parts.get('violating', '').split(' : ')[0])]
     ctx.log(f'coq: {len(disagree)} disagreements, {len(violating)} violating histories')
@@ -769,6 +805,33 @@ def main(ctx):
                                      'outcome': 'raises' if r.get('exc') else 'differs'},
                           what=f"round trip of an object with feature {rt['feature']}: {r.get('exc') or r.get('diff')}")
     ctx.notes['roundtrip_failures'] = n_rt_bad
+
+    # ---- 7a. real source directories read twice (parse, then cache)
+    n_tw_bad = 0
+    for tw, r in zip(tws, out.get('twice', [])):
+        if 'first_exc' in r:
+            ctx.count('twice:unparseable')
+            continue
+        ctx.count('twice:' + ('time-series' if tw['time_series'] else 'plain'))
+        ctx.case(['twice', tw['name']], nontrivial=True)
+        bad = 'second_exc' in r or r.get('diff') or r.get('second') != 'loaded' or r.get('first') != 'parsed'
+        if bad:
+            n_tw_bad += 1
+            ts_ = r.get('types', [])
+            if tw['time_series']:
+                sig = {'site': 'save/load round trip', 'feature': 'time-series', 'outcome': 'raises'}
+            elif any(a != b and a in b for a in ts_ for b in ts_) and 'second_exc' in r:
+                sig = {'site': 'save/load round trip', 'feature': 'types-substring', 'outcome': 'raises'}
+            else:
+                sig = {'site': 'read_directory twice', 'source': tw['name'],
+                       'outcome': 'raises' if 'second_exc' in r else 'differs'}
+            ctx.violation('impl-violation', {'twice': tw},
+                          'the second read_directory is served from the cache and returns the same six '
+                          'components as the first (parsed) one',
+                          r, 'C05_cache_transparent / oracle on real source directories', found_input=True,
+                          signature=sig, what=f"reading {tw['name']} twice: {r.get('second_exc') or r.get('diff')}")
+    ctx.notes['twice_failures'] = n_tw_bad
+    ctx.corr['sources_read_twice'] = len(tws)
 
     # ---- 7b. key scheme: correspondence (model in Coq vs to_dict/from_dict) and oracle
     kres = {x['id']: x for x in out['keycases']}
@@ -876,10 +939,43 @@ def replay(path):
         for o, s in zip(c['ops'], steps):
             print('op', o, '->', s['res'], 'died' if s['died'] else '', s['ls'])
         print('object snapshots (component identities):', out['snaps'])
-        last = steps[-1]['res']
-        print('expected:', rp['expected'])
-        print('last read returned', last)
-        return 1
+        lib.write_if_changed(lib.COQ / 'C05' / 'gen' / 'SaveCfg.v', c05_effects.emit(cfg))
+        ok, log, _ = lib.coq_make(['C05/gen/SaveCfg.vo'])
+        obs = []
+        for s in steps:
+            ls = '[' + '; '.join(f'({lib.coq_str(k)}, {content_coq(v)})' for k, v in sorted(s['ls'].items())) + ']'
+            obs.append(f'({result_coq(s["res"]) or "RNone"}, {ls})')
+        hist = '[' + '; '.join(op_coq(o) for o in c['ops']) + ']'
+        txt = HEADER + [f'Definition o{j} : snap := {snap_coq(sn)}.' for j, sn in enumerate(out['snaps'])]
+        txt += ['Goal True. idtac "@@ model". Abort.',
+                f'Eval vm_compute in run cfg o{c["src"]} {hist} [].',
+                'Goal True. idtac "@@ first-difference". Abort.',
+                f'Eval vm_compute in agree cfg o{c["src"]} {hist} [{"; ".join(obs)}].',
+                'Goal True. idtac "@@ property-violated-at-op". Abort.',
+                f'Eval vm_compute in oracle o{c["src"]} {hist} [{"; ".join(obs)}].']
+        rc, o, e = ctx.coq_eval('Replay', '\n'.join(txt) + '\n')
+        parts = lib.parse_marked(o)
+        print('model (Model.run in Coq):', parts.get('model', e[-300:]).strip())
+        print('first op at which model and implementation differ:', parts.get('first-difference', '').strip())
+        v = parts.get('property-violated-at-op', '').strip()
+        print('property (Model.spec_run on the implementation results) violated at op:', v)
+        bad = 'Some' in v
+        print('property', 'VIOLATED' if bad else 'holds', 'on this input')
+        return 1 if bad else 0
+    if 'twice' in c:
+        out = run_impl(ctx, files, [], [], [], (), [c['twice']])
+        r = out['twice'][0]
+        print('read twice:', json.dumps(r))
+        bad = 'second_exc' in r or bool(r.get('diff'))
+        print('property', 'VIOLATED' if bad else 'holds', 'on this input')
+        return 1 if bad else 0
+    if 'keycase' in c:
+        out = run_impl(ctx, files, [], [], [], [dict(c['keycase'], id=0)])
+        r = out['keycases'][0]
+        print('to_dict -> from_dict:', json.dumps(r))
+        bad = not key_expected_ok(c['keycase'], r)
+        print('property', 'VIOLATED' if bad else 'holds', 'on this input')
+        return 1 if bad else 0
     if 'roundtrip' in c:
         out = run_impl(ctx, files, [], [c['roundtrip']], [])
         r = out['roundtrips'][0]
